@@ -1180,7 +1180,7 @@ var typeSynonyms = map[string]string{
 	"record": "record", "void": "void", "trigger": "trigger", "uuid": "uuid", "regclass": "regclass",
 }
 
-// parseType parses [schema.]name[(mods)][[]]; returns TypeName.mk schema name mods isArray.
+// parseType parses [schema.]name[(mods)][[]]; returns SqlType.mk schema name mods isArray.
 func (p *parser) parseType() *Node {
 	t := p.peek()
 	if t.Kind != TIdent && t.Kind != TQIdent {
@@ -1240,7 +1240,7 @@ func (p *parser) parseType() *Node {
 		p.next()
 		arr = true
 	}
-	return N("TypeName.mk", schema, name, mods, arr)
+	return N("SqlType.mk", schema, name, mods, arr)
 }
 
 var aggregateNames = map[string]bool{
